@@ -1,8 +1,11 @@
 import checks
 import c11
 import c15
+import c12
+import c17
+import c18
 
-SPECIAL = {"C03": checks.check_C03, "C11": c11.check_C11, "C15": c15.check_C15}
+SPECIAL = {"C03": checks.check_C03, "C11": c11.check_C11, "C15": c15.check_C15, "C12": c12.check_C12, "C17": c17.check_C17, "C18": c18.check_C18}
 
 
 def implemented():
